@@ -386,10 +386,92 @@ func genFaults(r *core.Rand, s *Scenario, kinds ...string) {
 }
 
 // C03: liveness at quiescence + round robin in quiet-peer phases.
+// genBoundary: streams whose window is used up EXACTLY at a message boundary
+// (first message = stream window - 5 bytes of payload, so the writer sees the
+// stream as idle, not as waiting for window) queue another message while a
+// stream with a large window is in the middle of a big message; the zero-window
+// streams are therefore taken from the writer's round-robin list with no quota
+// at all, in between the big sender's turns. The peer then stays silent (no
+// WINDOW_UPDATE, PING, SETTINGS) and nothing else is written by the
+// application, so whatever the writer does with the zero-window streams, only
+// its own bookkeeping can keep the big stream going. Variant: the window is
+// lowered to what is outstanding (or below) while the streams are active.
+func genBoundary(seed uint64, tier string) *Scenario {
+	r, s := genBase(seed, tier, false)
+	s.Oracles = []string{"live", "windows"}
+	if slowNet(s) {
+		s.Net = simnet.Cfg{Seed: core.Mix(seed, 21), SegMax: core.Pick(r, 0, 1000, 20000)}
+		s.Client.WriteBuf = 0
+	}
+	s.Net.LatencyNs = int64(core.Pick(r, 0, 0, 1000, 100000))
+	p := &s.Peer
+	p.SGrant = Grant{Mode: "none"}
+	p.CGrant = Grant{Mode: "none"}
+	W := core.Pick(r, 5, 6, 100, 1000, 16384, 16389, 65535, 65535, 70000)
+	p.IWS = int64(W)
+	if W == 65535 && r.Chance(1, 2) {
+		p.IWS = -1 // the default window
+	}
+	p.ConnGrant0 = 16 << 20
+	// with back-pressure and a reader that pauses, the writer blocks in the
+	// middle of the big message while the small ones are queued
+	stall := r.Chance(1, 2)
+	if stall {
+		s.Net.InflightCap = core.Pick(r, 4096, 100000)
+	}
+	t0 := int64(r.Intn(3)) * int64(r.Intn(1000000))
+	t1 := t0 + int64(core.Pick(r, 2000000, 10000000, 300000000))
+	k := r.Range(2, 7)
+	big := r.Range(100000, 1500000)
+	if tier == "thorough" {
+		big = r.Range(100000, 4<<20)
+	}
+	lower := r.Chance(1, 4) // variant (b): SETTINGS lowers the window instead
+	id := uint32(0)
+	for i := 0; i < k; i++ {
+		id++
+		rpc := RPC{ID: id, StartNs: t0 + int64(r.Intn(2))*int64(r.Intn(100000))}
+		first := W - 5
+		if lower {
+			first = r.Range(0, max(W-6, 0)) // window left: the SETTINGS takes it away
+		}
+		rpc.Client = []Op{{Op: "send", N: first}, {Op: "sleep", Ns: t1 - rpc.StartNs + int64(core.Pick(r, 0, 0, 0, 1000, 50000))}, {Op: "send", N: r.Range(0, 200)}, {Op: "sleep", Ns: 3000000000}, {Op: "cancel"}, {Op: "recv_all"}}
+		rpc.Server = [][]SOp{{{Op: "hang"}}}
+		s.RPCs = append(s.RPCs, rpc)
+	}
+	nbig := core.Pick(r, 1, 1, 2)
+	for i := 0; i < nbig; i++ {
+		id++
+		rpc := RPC{ID: id, StartNs: t0}
+		rpc.Client = []Op{{Op: "sleep", Ns: t1 - t0 + int64(core.Pick(r, 0, 0, 0, 1000))}, {Op: "send", N: big / nbig}, {Op: "close_send"}, {Op: "recv_all"}}
+		srv := []SOp{{Op: "grant", N: 8 << 20}}
+		if stall && i == 0 {
+			srv = append(srv, SOp{Op: "wait_bytes", N: 1}, SOp{Op: "read_stall", Ns: int64(core.Pick(r, 1000000, 50000000))})
+		}
+		srv = append(srv, SOp{Op: "recv_all"}, SOp{Op: "trailers"})
+		rpc.Server = [][]SOp{srv}
+		s.RPCs = append(s.RPCs, rpc)
+	}
+	if lower {
+		a := act(t1-int64(core.Pick(r, 0, 1000, 1000000)), "settings")
+		a.IWS = int64(core.Pick(r, 0, 0, 1, W/2))
+		s.Actions = append(s.Actions, a)
+		// the big senders keep their credit: their extra grant is far above W
+	}
+	for _, at := range []int64{t1 + 200000000, t1 + 1500000000} {
+		s.Actions = append(s.Actions, act(at, "check"))
+	}
+	sortActions(s)
+	return s
+}
+
 func genC03(seed uint64, tier string) *Scenario {
 	r0 := core.NewRand(core.Mix(seed, 79))
 	if r0.Chance(2, 5) {
 		return genFair(seed, tier)
+	}
+	if r0.Chance(1, 3) {
+		return genBoundary(seed, tier)
 	}
 	s := genFlow(seed, tier, "live")
 	s.Oracles = []string{"live", "windows"}
